@@ -6,7 +6,7 @@ pid=$1; patch=$2; tier=${3:-quick}
 wt=/tmp/wt/$pid
 [ -d $wt ] || git -C /repo worktree add -q --detach $wt HEAD
 cd $wt || exit 2
-git checkout -q -- . ; git apply "$patch" || { echo "patch does not apply"; exit 2; }
+git checkout -q -- . ; git checkout -q --detach main; git apply "$patch" || { echo "patch does not apply"; exit 2; }
 cd /verif && WALLGO_REPO=$wt ./check $pid --tier $tier > /tmp/mut_$pid.log 2>&1; rc=$?
 git -C $wt checkout -q -- .
 grep -E "VIOLATION|KNOWN-FINDING|FAILING INPUT|obligations|failed|broken|translator" /tmp/mut_$pid.log | cut -c1-300 | head -12
